@@ -81,9 +81,9 @@ PROPS = {
         "note": "none beyond the trusted base",
     },
     "C13": {
-        "modules": ["PP.Props.C13", "PP.Props.HashLen"], "level": "proof", "technique": "Lean 4 proof (model = literal RFC 9380 section 5 transcription, for every hash) + differential correspondence incl. the Lean SHA-2/SHAKE",
+        "modules": ["PP.Props.C13", "PP.Props.HashLen", "PP.Props.HashKat"], "level": "proof", "technique": "Lean 4 proof (model = literal RFC 9380 section 5 transcription, for every hash) + differential correspondence incl. the Lean SHA-2/SHAKE",
         "text": "expand_message_xmd (any hash), expand_message_xof and hash_to_field (Fq, Fr, Fq2, any count) equal a literal transcription of RFC 9380 5.2/5.3 for all inputs with |dst| <= 255, len <= 65535; abort iff more than 255 blocks; from_okm = OS2IP mod p (unwraps cannot fire)." + DIFF,
-        "note": "the hash function is a parameter of the theorems; sha2/sha3 crates are validated differentially against PP/Spec/Hash.lean and python hashlib",
+        "note": "the hash function is a parameter of the theorems; the Lean SHA-256/512 models reproduce the FIPS 180-4 example digests and padding-boundary cases in the kernel (PP.Props.HashKat, tests); sha2/sha3 crates are validated differentially against PP/Spec/Hash.lean and python hashlib on every run",
     },
     "C14": {
         "modules": ["PP.Props.C14", "PP.Props.CurveOrder"], "level": "proof", "technique": "Lean 4 proof by composition (C01 on the target curve, C15, C16, C17, curve orders) + refutation of the pre-fix code + differential correspondence with constructed collisions",
